@@ -7,5 +7,6 @@ Extraction "c10_model.ml"
   gen gen_pre gen_pot create_var seg_var scan nudge_step unify_step loop nudge_region written loop_fuel
   nudge_region_ok con_ok gap_ok var_ok seg_written_ok vpsc_run vpsc_solver
   overlaps_with should_align_with can_align_with rel_model seg_wf seg_groups group_skipped cp_limit_ok
-  scene_ok ends_kept cps_kept no_new_segments still_orth still_clear pair_ok common_end simplify
+  scene_ok ends_kept cps_kept no_new_segments still_orth still_clear fixed_kept pair_ok common_end simplify
+  route_members pass_members mem_matches members_covered members_only
   Qplus Qminus Qmult Qdiv Qopp Qred Qle_bool Qeq_bool Qcompare Qabs'.
